@@ -1073,7 +1073,7 @@ func runC13(c *ctx) {
 	}
 	// run the real code, sessions in parallel (each session is independent and deterministic)
 	var wg sync.WaitGroup
-	sem := make(chan struct{}, 12)
+	sem := make(chan struct{}, vlib.Conc(12))
 	for _, s := range sessions {
 		wg.Add(1)
 		sem <- struct{}{}
